@@ -304,7 +304,7 @@ type backing struct {
 	elemT types.Type
 	min   int64 // smallest offset used by a slice over this array (indices are shifted by it)
 	hasM  bool
-	size  int64 // one past the largest absolute index needed
+	size  int64            // one past the largest absolute index needed
 	cells map[int64]string // index -> Go expression
 	done  map[int64]bool
 }
